@@ -11,19 +11,30 @@ import (
 	"sort"
 	"strings"
 	"sync"
+	"sync/atomic"
 	"time"
 
 	"github.com/sirupsen/logrus"
 	core_v1 "k8s.io/api/core/v1"
 	meta_v1 "k8s.io/apimachinery/pkg/apis/meta/v1"
+	"k8s.io/apimachinery/pkg/runtime"
+	"k8s.io/apimachinery/pkg/watch"
 	"k8s.io/client-go/kubernetes/fake"
+	utilruntime "k8s.io/apimachinery/pkg/util/runtime"
+	k8stesting "k8s.io/client-go/testing"
 
 	"github.com/atlassian/gostatsd"
 	"github.com/atlassian/gostatsd/internal/verifhook"
 	"github.com/atlassian/gostatsd/pkg/cachedinstances/k8s"
 )
 
-func init() { register("C13", func() Property { return c13{} }) }
+func init() {
+	register("C13", func() Property { return c13{} })
+	// apimachinery's default error handlers include a rate limiter whose "last error" time is the
+	// real time of process start; inside a bubble (epoch 2000-01-01) it would sleep for decades of
+	// simulated time on the first reported error (e.g. a closed watch). Keep the logging only.
+	utilruntime.ErrorHandlers = []func(error){func(err error) { logrus.Debugf("k8s runtime error: %v", err) }}
+}
 
 type c13 struct{}
 
@@ -82,7 +93,7 @@ func refTagName(re *regexp.Regexp, key string) string {
 
 func (c13) Run(e *Env) {
 	e.ProbeDecl("lookup-hit", "lookup-miss", "ip-reused-by-other-pod", "phase-only-update", "deletion-timestamp-update", "label-edit", "annotation-edit", "ip-changed", "ip-unset", "delete", "lookup-before-pod-exists",
-		"host-network-pod", "tag-group-empty-falls-back-to-key", "regex-without-group", "via-ipsink", "racing-lookup")
+		"host-network-pod", "tag-group-empty-falls-back-to-key", "regex-without-group", "via-ipsink", "racing-lookup", "partition", "tombstone-delete-after-relist", "changed-while-partitioned")
 	labelRes := []string{"", "^app$", "^(?:app|team/(?P<tag>.+))$", "^tier(?P<tag>.*)$", "^nomatch$", "^team/(.+)$"}
 	annRes := []string{k8s.DefaultAnnotationTagRegex, "", "^gostatsd\\.atlassian\\.com/(?P<tag>.*)$", "^note$", "^(?P<tag>x)?note$"}
 	lr, ar := labelRes[e.Draw(len(labelRes))], annRes[e.Draw(len(annRes))]
@@ -97,11 +108,36 @@ func (c13) Run(e *Env) {
 		annRe = regexp.MustCompile(ar)
 	}
 	cs := fake.NewSimpleClientset()
+	// the link to the API server: while partitioned, list and watch fail; cutting it closes the watch
+	// stream. Changes made meanwhile are only seen through the relist after the link heals (deleted
+	// pods arrive as DeletedFinalStateUnknown tombstones, changed ones as replacements).
+	var partitioned atomic.Bool
+	var lists, watches atomic.Int32
+	var curWatch atomic.Pointer[watch.Interface]
+	cs.PrependReactor("list", "pods", func(a k8stesting.Action) (bool, runtime.Object, error) {
+		if partitioned.Load() {
+			return true, nil, fmt.Errorf("simulated: connection refused")
+		}
+		lists.Add(1)
+		return false, nil, nil
+	})
+	cs.PrependWatchReactor("pods", func(a k8stesting.Action) (bool, watch.Interface, error) {
+		if partitioned.Load() {
+			return true, nil, fmt.Errorf("simulated: connection refused")
+		}
+		w, err := cs.Tracker().Watch(a.GetResource(), a.GetNamespace())
+		if err == nil {
+			curWatch.Store(&w)
+			watches.Add(1)
+		}
+		return true, w, err
+	})
 	prov, err := k8s.NewProvider(logrus.StandardLogger(), cs, k8s.PodInformerOptions{ResyncPeriod: 5 * time.Minute, WatchCluster: true}, annRe, labelRe)
 	if err != nil {
 		e.Failf("C13/harness", "NewProvider: %v", err)
 	}
 	racing := e.Chance(1, 4)
+	faulty := e.Chance(1, 3) // run class with faults on the link to the API server
 	yg := &yieldGate{gate: NewGate("yield"), anyObj: true, sites: map[string]bool{}}
 	yg.off.Store(true) // armed only around the racing lookup: the driver's own lookups must not park
 	if racing {
@@ -131,7 +167,15 @@ func (c13) Run(e *Env) {
 	labelKeys := []string{"app", "team/infra", "tier", "tier-x", "other"}
 	annKeys := []string{k8s.AnnotationPrefix + "svc", k8s.AnnotationPrefix, "note", "xnote", "unrelated"}
 
-	holder := func(ip string) *c13Pod {
+	// what the provider has been able to observe: the state when the link was cut, while it is cut
+	var observed map[string]*c13Pod
+	view := func() map[string]*c13Pod {
+		if observed != nil {
+			return observed
+		}
+		return pods
+	}
+	holderIn := func(pods map[string]*c13Pod, ip string) *c13Pod {
 		var names []string
 		for n, p := range pods {
 			if p.ip == ip && p.indexable() {
@@ -144,8 +188,9 @@ func (c13) Run(e *Env) {
 		}
 		return pods[names[0]]
 	}
+	holder := func(ip string) *c13Pod { return holderIn(pods, ip) }
 	expect := func(ip string) (string, []string, bool) {
-		p := holder(ip)
+		p := holderIn(view(), ip)
 		if p == nil {
 			return "", nil, false
 		}
@@ -244,6 +289,37 @@ func (c13) Run(e *Env) {
 		return ns
 	}
 
+	heal := func() {
+		partitioned.Store(false)
+		l0, w0 := lists.Load(), watches.Load()
+		e.Event("link healed")
+		// the reflector retries with back-off; "observed" means after its relist and new watch
+		for i := 0; lists.Load() == l0 || watches.Load() == w0; i++ {
+			if i > 200 {
+				e.Failf("C13/no-relist-after-heal", "the link to the API server has been up for %d simulated seconds and the informer has not listed and watched again (lists %d->%d, watches %d->%d)", i, l0, lists.Load(), w0, watches.Load())
+			}
+			time.Sleep(time.Second)
+			e.Settle()
+		}
+		time.Sleep(50 * time.Millisecond)
+		e.Settle()
+		var gone, changed int
+		for n := range observed {
+			if _, ok := pods[n]; !ok {
+				gone++
+			} else if observed[n].rv != pods[n].rv {
+				changed++
+			}
+		}
+		if gone > 0 {
+			e.Probe("tombstone-delete-after-relist")
+		}
+		if changed > 0 {
+			e.Probe("changed-while-partitioned")
+		}
+		observed = nil
+		e.Overlap = true
+	}
 	nSteps := e.Range(3, 25)
 	for step := 0; step < nSteps; step++ {
 		e.Settle()
@@ -253,7 +329,37 @@ func (c13) Run(e *Env) {
 		if len(names) < 4 {
 			canAdd = 3
 		}
-		switch e.Weighted("c13", []int{canAdd, 4 * minInt(1, len(names)), 1 * minInt(1, len(names)), 5}) {
+		canCut, canHeal := 0, 0
+		if faulty && observed == nil && watches.Load() > 0 {
+			canCut = 1
+		}
+		if observed != nil {
+			canHeal = 2
+		}
+		switch e.Weighted("c13", []int{canAdd, 4 * minInt(1, len(names)), 1 * minInt(1, len(names)), 5, canCut, canHeal}) {
+		case 4:
+			// cut the link: the provider keeps answering from what it had observed
+			observed = map[string]*c13Pod{}
+			for n, p := range pods {
+				cp := *p
+				cp.labels, cp.annotations = map[string]string{}, map[string]string{}
+				for k, v := range p.labels {
+					cp.labels[k] = v
+				}
+				for k, v := range p.annotations {
+					cp.annotations[k] = v
+				}
+				observed[n] = &cp
+			}
+			partitioned.Store(true)
+			(*curWatch.Load()).Stop()
+			e.Fault("watch-stream-cut")
+			e.Probe("partition")
+			e.Event("link to the API server cut")
+			e.Settle()
+			time.Sleep(time.Duration(e.Draw(4)) * time.Second)
+		case 5:
+			heal()
 		case 0:
 			nextPod++
 			p := &c13Pod{ns: []string{"default", "prod"}[e.Draw(2)], name: fmt.Sprintf("pod%d", nextPod), phase: []core_v1.PodPhase{core_v1.PodPending, core_v1.PodRunning, core_v1.PodRunning}[e.Draw(3)],
@@ -354,7 +460,7 @@ func (c13) Run(e *Env) {
 				e.Probe("lookup-before-pod-exists")
 			}
 			via := e.Bool()
-			if racing && e.Chance(1, 2) && len(names) > 0 {
+			if racing && observed == nil && e.Chance(1, 2) && len(names) > 0 {
 				// racing variant: a lookup is parked between reading the informer and memoising its
 				// answer while a change to the pod holding that IP is observed; the verdict is taken
 				// from a later lookup, after everything is quiescent
@@ -397,6 +503,9 @@ func (c13) Run(e *Env) {
 		}
 	}
 	e.Settle()
+	if observed != nil {
+		heal()
+	}
 	for _, ip := range ips {
 		inst, _ := prov.Peek(gostatsd.Source(ip))
 		judge(ip, inst, "final Peek")
